@@ -1,19 +1,15 @@
 import Percival.Driver.Loop
-import Percival.Model.CpuPaths
-import Percival.Model.CpuAesni
-/-! `pmodel cpu sha=<path> crc=<path> aes=<path> ctr=<path>` (C03).
-
-L1 part: `Spec.Sha256.hash` / `Spec.Sha256.compress` / `Spec.Crc32c.crc32c` — the same answer for
-every build of the harness.  L2 part: what the build named by the arguments exposes — the selected
-paths, the CRC state after every `CRC32C_Update` call computed by the instruction-level model of the
-selected path (`Model.CpuPaths.crcStates`), the message schedule `W` computed by the SSE2 lane model.
-AES / AES-CTR ops: `Spec.Aes` belongs to C02 and is not merged; the reference of the `aes-*`
-components is therefore the portable build of the harness (tools/props/c03.py).  In addition this
-driver answers `aesblock`/`ctr` from `Model.CpuAesni.Fips` — a self-contained FIPS-197 transcription
-(proved equal to the AES-NI model, validated by FIPS-197 C.1/C.3) — which the `cpu-*` components use
-for a spec-level judgement of every build (and which makes `AES_REFERENCE = "pmodel"` work today). -/
+import Percival.Model.CpuStep
+/-! `pmodel cpu sha=<path> crc=<path> aes=<path> ctr=<path>` (C03).  Thin by construction: `parse`,
+`Model.CpuStep.stepOp` (what is computed and why: see `Model/CpuStep.lean`), `render`.
+The arguments name the build of the harness: they are echoed by `path`/`force` and select which CRC32C variant
+and which message schedule the L2 parts are computed for (`cfgOf`).
+AES / AES-CTR ops: the reference of the `aes-*` components is the portable build of the harness
+(tools/props/c03.py); `aesblock`/`ctr` are answered from `Model.CpuAesni.Fips` — a self-contained FIPS-197
+transcription (proved equal to the AES-NI model, validated by FIPS-197 C.1/C.3) — which the `cpu-*` components use
+for a spec-level judgement of every build (and which makes `AES_REFERENCE = "pmodel"` work). -/
 namespace Percival.Driver.Cpu
-open Percival Percival.Driver Percival.Model.CpuPaths
+open Percival Percival.Driver Percival.Model.CpuPaths Percival.Model.CpuStep
 open Percival.Model
 
 def argVal (args : List String) (key : String) : String :=
@@ -21,155 +17,76 @@ def argVal (args : List String) (key : String) : String :=
   | some a => (a.drop (key.length + 1)).toString
   | none => "software"
 
-def crcVariant (args : List String) : Option Variant :=
-  match argVal args "crc" with
-  | "sse42_64" => some .x64
-  | "sse42_32" => some .x32
-  | _ => none
+def cfgOf (args : List String) : Cfg :=
+  { sha := match argVal args "sha" with
+      | "sse2" => .sse2
+      | "software" => .software
+      | _ => .other
+    crc := match argVal args "crc" with
+      | "sse42_64" => some .x64
+      | "sse42_32" => some .x32
+      | _ => none }
 
 def allBytes (toks : List String) : Option (List (List UInt8)) := toks.mapM bytesOfHex
 
-def regsOfBytes (b : List UInt8) : Option Spec.Sha256.Regs :=
-  match Spec.wordsBE b with
-  | [a, b, c, d, e, f, g, h] => some ⟨a, b, c, d, e, f, g, h⟩
-  | _ => none
+/-- instruction name + operands; `none` = unknown name or wrong number of operands -/
+def parseInsn : String → List (List UInt8) → Option Insn
+  | "crc32", [st, src] => some (.crc32 st src)
+  | "rnds2", [a, b, k] => some (.rnds2 a b k)
+  | "msg1", [a, b] => some (.msg1 a b)
+  | "msg2", [a, b] => some (.msg2 a b)
+  | "alignr4", [a, b] => some (.alignr4 a b)
+  | "srli64_17", [a] => some (.srli64 17 a)
+  | "srli64_19", [a] => some (.srli64 19 a)
+  | "aesenc", [a, b] => some (.aesenc a b)
+  | "aesenclast", [a, b] => some (.aesenclast a b)
+  | "keygen01", [a] => some (.keygen 0x01 a)
+  | "keygen1b", [a] => some (.keygen 0x1b a)
+  | "keygen00", [a] => some (.keygen 0x00 a)
+  | _, _ => none
 
-def callsOf (hw : Option Variant) : Nat → List (List UInt8) → List Call
-  | _, [] => []
-  | addr, c :: rest => ⟨hw, addr, c⟩ :: callsOf hw (addr + c.length) rest
+def parse : List String → Option Op
+  | ["path"] => some .path
+  | ["force"] => some .force
+  | ["sha", _, h] => (bytesOfHex h).map .sha
+  | "shaparts" :: _ :: chunks => (allBytes chunks).map fun cs => .sha cs.flatten
+  | ["xform", st, blk] => do pure (.xform (← bytesOfHex st) (← bytesOfHex blk))
+  | "crc" :: align :: chunks => (allBytes chunks).map fun cs => .crc align.toNat! cs
+  | ["aesblock", key, blk] => do pure (.aesblock (← bytesOfHex key) (← bytesOfHex blk))
+  | ["ctr", key, nonce, _, _, _, dat] => do pure (.ctr (← bytesOfHex key) (← bytesOfHex nonce) (← bytesOfHex dat))
+  | "insn" :: name :: ops => (allBytes ops).map fun os => .insn (parseInsn name os)
+  | _ => none
 
 def showState : Option UInt32 → String
   | some s => hexOfNat32 s.toNat
   | none => "oob"
 
-def bytesOfV4 (v : V4) : List UInt8 :=
-  Spec.le32enc v.x0 ++ Spec.le32enc v.x1 ++ Spec.le32enc v.x2 ++ Spec.le32enc v.x3
-
-def le32OfBytes : List UInt8 → Option UInt32
-  | [a, b, c, d] => some (Spec.le32 a b c d)
-  | _ => none
-
-/-- AES of one block by the FIPS-197 transcription `Model.CpuAesni.Fips` (self-contained; to be
-    replaced by C02's `Spec.Aes` when merged) -/
-def aesBlock (key blk : List UInt8) : Option (List UInt8) :=
-  if key.length = 16 ∨ key.length = 32 then
-    (CpuAesni.R.ofBytes blk).bind fun b => (CpuAesni.Fips.encrypt (CpuAesni.Fips.keyWords key) b).map (·.bytes)
-  else none
-
-/-- AES-CTR as libcperciva defines it (crypto_aesctr.h): keystream block `i` is
-    `AES_k(be64(nonce) ‖ be64(i))`; returns output and the L2 view of `struct crypto_aesctr` -/
-def ctrStream (key nonce data : List UInt8) : Option (List UInt8 × String) :=
-  if ¬ (key.length = 16 ∨ key.length = 32) ∨ nonce.length ≠ 8 then none else
-  let n := data.length
-  let nblocks := (n + 15) / 16
-  let rec go (fuel i : Nat) (rest : List UInt8) (acc : List (List UInt8)) (last : List UInt8) :
-      Option (List (List UInt8) × List UInt8) :=
-    match fuel with
-    | 0 => some (acc, last)
-    | fuel+1 =>
-      match aesBlock key (nonce ++ Spec.be64enc i) with
-      | some ks => go fuel (i + 1) (rest.drop 16) ((List.zipWith (· ^^^ ·) (rest.take 16) ks) :: acc) ks
-      | none => none
-  match go nblocks 0 data [] [] with
-  | some (chunks, last) =>
-    let out := chunks.reverse.flatten
-    -- after `init2` only the nonce and byte 15 (0xff) of `pblk` are determined
-    let pblk := if n = 0 then hexOfBytes nonce ++ ":ff" else hexOfBytes (nonce ++ Spec.be64enc (nblocks - 1))
-    let buf := if n % 16 = 0 then [] else last
-    some (out, s!"bytectr={n} pblk={pblk} buf={hexOfBytes buf}")
-  | none => none
-
-/-- one instruction, by the SDM transcription of `Model.CpuPaths` (L2: ties the model's instruction
-    semantics to what the CPU does) -/
-def insn (name : String) (ops : List (List UInt8)) : Option String :=
-  match name, ops with
-  | "crc32", [st, src] =>
-      if src.length = 1 ∨ src.length = 4 ∨ src.length = 8 then
-        (le32OfBytes st).map fun s => hexOfNat32 (crc32Insn s src).toNat
-      else none
-  | "rnds2", [a, b, k] => do
-      let a ← lanesOfBytes a; let b ← lanesOfBytes b; let k ← lanesOfBytes k
-      pure (hexOfBytes (bytesOfV4 (sha256rnds2 a b k)))
-  | "msg1", [a, b] => do
-      let a ← lanesOfBytes a; let b ← lanesOfBytes b
-      pure (hexOfBytes (bytesOfV4 (sha256msg1 a b)))
-  | "msg2", [a, b] => do
-      let a ← lanesOfBytes a; let b ← lanesOfBytes b
-      pure (hexOfBytes (bytesOfV4 (sha256msg2 a b)))
-  | "alignr4", [a, b] => do
-      let a ← lanesOfBytes a; let b ← lanesOfBytes b
-      pure (hexOfBytes (bytesOfV4 (mm_alignr_epi8_4 a b)))
-  | "srli64_17", [a] => (lanesOfBytes a).map fun a => hexOfBytes (bytesOfV4 (mm_srli_epi64 a 17))
-  | "srli64_19", [a] => (lanesOfBytes a).map fun a => hexOfBytes (bytesOfV4 (mm_srli_epi64 a 19))
-  | "aesenc", [a, b] => do
-      let a ← CpuAesni.R.ofBytes a; let b ← CpuAesni.R.ofBytes b
-      pure (hexOfBytes (CpuAesni.aesenc a b).bytes)
-  | "aesenclast", [a, b] => do
-      let a ← CpuAesni.R.ofBytes a; let b ← CpuAesni.R.ofBytes b
-      pure (hexOfBytes (CpuAesni.aesenclast a b).bytes)
-  | "keygen01", [a] => (CpuAesni.R.ofBytes a).map fun a => hexOfBytes (CpuAesni.aeskeygenassist a 0x01).bytes
-  | "keygen1b", [a] => (CpuAesni.R.ofBytes a).map fun a => hexOfBytes (CpuAesni.aeskeygenassist a 0x1b).bytes
-  | "keygen00", [a] => (CpuAesni.R.ofBytes a).map fun a => hexOfBytes (CpuAesni.aeskeygenassist a 0x00).bytes
-  | _, _ => none
+def render (args : List String) : Out → String
+  | .badOp => "bad-op"
+  | .path => "path | " ++ " ".intercalate (["sha", "crc", "aes", "ctr"].map fun k => k ++ "=" ++ argVal args k)
+  | .force => "force | " ++ " ".intercalate (["sha", "crc", "aes", "ctr"].map fun k => k ++ "=" ++ argVal args k)
+  | .digest d => hexOfBytes d
+  | .xform out w =>
+      let l2 := match w with
+        | some ws => String.join (ws.map fun x => hexOfNat32 x.toNat)
+        | none => "-"
+      hexOfBytes out ++ " | W=" ++ l2
+  | .crc c states => hexOfBytes c ++ " | " ++ " ".intercalate (states.map showState)
+  | .block ct => hexOfBytes ct
+  | .ctr out l2 =>
+      let pblk := match l2.counter with
+        | none => hexOfBytes l2.nonce ++ ":ff"
+        | some c => hexOfBytes (l2.nonce ++ c)
+      hexOfBytes out ++ " | " ++ s!"bytectr={l2.bytectr} pblk={pblk} buf={hexOfBytes l2.buf}"
+  | .insn r => "insn | " ++ match r with
+      | some (.word w) => hexOfNat32 w.toNat
+      | some (.reg b) => hexOfBytes b
+      | none => "bad-insn"
 
 def step (args : List String) (_ : Unit) (toks : List String) : Unit × String :=
-  let paths := " ".intercalate (["sha", "crc", "aes", "ctr"].map fun k => k ++ "=" ++ argVal args k)
-  match toks with
-  | ["path"] => ((), "path | " ++ paths)
-  | ["force"] => ((), "force | " ++ paths)
-  | ["sha", _, h] =>
-      match bytesOfHex h with
-      | some b => ((), hexOfBytes (Spec.Sha256.hash b))
-      | none => ((), "bad-op")
-  | "shaparts" :: _ :: chunks =>
-      match allBytes chunks with
-      | some cs => ((), hexOfBytes (Spec.Sha256.hash cs.flatten))
-      | none => ((), "bad-op")
-  | ["xform", st, blk] =>
-      match bytesOfHex st, bytesOfHex blk with
-      | some s, some b =>
-        match regsOfBytes s with
-        | some r =>
-          if b.length = 64 ∧ s.length = 32 then
-            -- L2: the scratch array W as the selected variant leaves it
-            let w : Option (List UInt32) :=
-              match argVal args "sha" with
-              | "sse2" => sse2W b
-              | "software" => some (Spec.Sha256.schedule b)
-              | _ => none
-            let l2 := match w with
-              | some ws => String.join (ws.map fun x => hexOfNat32 x.toNat)
-              | none => "-"
-            ((), hexOfBytes (Spec.Sha256.out (Spec.Sha256.compress r b)) ++ " | W=" ++ l2)
-          else ((), "bad-op")
-        | none => ((), "bad-op")
-      | _, _ => ((), "bad-op")
-  | "crc" :: align :: chunks =>
-      match allBytes chunks with
-      | some cs =>
-        let calls := callsOf (crcVariant args) align.toNat! cs
-        let l2 := " ".intercalate ((crcStates calls Gen.CpuPaths.crcInitState).map showState)
-        ((), hexOfBytes (Spec.Crc32c.crc32c cs.flatten) ++ " | " ++ l2)
-      | none => ((), "bad-op")
-  | ["aesblock", key, blk] =>
-      match bytesOfHex key, bytesOfHex blk with
-      | some k, some b =>
-        match aesBlock k b with
-        | some c => ((), hexOfBytes c)
-        | none => ((), "bad-op")
-      | _, _ => ((), "bad-op")
-  | ["ctr", key, nonce, _, _, _, dat] =>
-      match bytesOfHex key, bytesOfHex nonce, bytesOfHex dat with
-      | some k, some n, some d =>
-        match ctrStream k n d with
-        | some (out, l2) => ((), hexOfBytes out ++ " | " ++ l2)
-        | none => ((), "bad-op")
-      | _, _, _ => ((), "bad-op")
-  | "insn" :: name :: ops =>
-      match allBytes ops with
-      | some os => ((), "insn | " ++ ((insn name os).getD "bad-insn"))
-      | none => ((), "bad-op")
-  | _ => ((), "bad-op")
+  match parse toks with
+  | some op => ((), render args (stepOp (cfgOf args) op))
+  | none => ((), "bad-op")
 
 def main (args : List String) : IO UInt32 := loop () (step args)
 
